@@ -35,7 +35,16 @@ def apply(mutant, root):
         return None
     edits = mutant.get("edits") or [mutant]
     for edit in edits:
-        path = os.path.join(root, "src", edit["file"])
+        if edit["file"].startswith("x690/"):
+            import importlib.util
+
+            base = list(importlib.util.find_spec("x690").submodule_search_locations)[0]
+            dest = os.path.join(root, "_x690_override")
+            if not os.path.isdir(dest):
+                shutil.copytree(base, dest, ignore=shutil.ignore_patterns("__pycache__"))
+            path = os.path.join(dest, edit["file"][5:])
+        else:
+            path = os.path.join(root, "src", edit["file"])
         with open(path, "r", encoding="utf8") as fptr:
             src = fptr.read()
         count = src.count(edit["old"])
